@@ -151,6 +151,9 @@ type schedCase struct {
 	Init   []string `json:"init,omitempty"`
 	InitRC []int    `json:"irc,omitempty"`
 	InitDC []int    `json:"idc,omitempty"`
+	// the listener on the done channel (the agent's: it writes the status to the history store, reports
+	// to the socket) takes that long before it accepts each report: every worker's hand-over blocks meanwhile
+	SlowDone int `json:"slowDone,omitempty"`
 }
 
 type snap struct {
@@ -313,6 +316,8 @@ func sameSnap(a, b snap) bool {
 
 // quiesce waits until nothing moves: no event for `quiet`, two equal snapshots, every running node is
 // blocked inside its executor; returns false if Schedule returned meanwhile
+var slowDone time.Duration
+
 func quiesce(sc *scheduler.Scheduler, g *scheduler.ExecutionGraph, finished chan struct{}, quiet time.Duration) (snap, bool) {
 	deadline := time.Now().Add(3 * time.Second)
 	lastN := -1
@@ -347,8 +352,16 @@ func quiesce(sc *scheduler.Scheduler, g *scheduler.ExecutionGraph, finished chan
 		}
 		if n != lastN || !sameSnap(s, last) || !blocked {
 			lastN, last, stableSince = n, s, time.Now()
-		} else if time.Since(stableSince) >= quiet {
-			return s, false
+		} else {
+			need := quiet
+			if slowDone > 0 && len(s.Flight) == 0 && len(s.Pending) == 0 {
+				// nothing for the harness to act on: the run is about to end or to start a handler, but only
+				// after every worker's report was accepted by the (slow) listener
+				need += slowDone * time.Duration(len(s.St)+1)
+			}
+			if time.Since(stableSince) >= need {
+				return s, false
+			}
 		}
 		if time.Now().After(deadline) {
 			return s, false
@@ -407,9 +420,16 @@ func runCase(c schedCase, quiet time.Duration) (res result) {
 		OnCancel: handlerStep(2, c.Handlers[2]), OnExit: handlerStep(3, c.Handlers[3]),
 	})
 	scheduler.VerifSetPause(sc, pause)
+	slowDone = time.Duration(c.SlowDone) * time.Millisecond
 	done := make(chan *scheduler.Node)
 	go func() {
-		for range done {
+		for {
+			if c.SlowDone > 0 {
+				time.Sleep(time.Duration(c.SlowDone) * time.Millisecond)
+			}
+			if _, ok := <-done; !ok {
+				return
+			}
 		}
 	}()
 	finished := make(chan struct{})
